@@ -282,6 +282,10 @@ func optionForwarding(c *Ctx, r *Report, rule string, specs []fwdSpec, only ...s
 			n++
 			key := r.Key(rule, fn, "forward", sp.structName+"."+ff.field)
 			ss := stores[ff.field]
+			if len(ss) == 0 && ff.src == "same" && copiedFromCallersStruct(sf, bases, st) {
+				r.Hold(rule, key, sinkCall.Pos(), true, sp.structName+"."+ff.field+" is carried by a copy of the caller's whole options value")
+				continue
+			}
 			if len(ss) == 0 {
 				// the caller's own options value is handed on as it is: every field travels with it
 				own := len(bases) > 0
@@ -488,6 +492,37 @@ func startArgumentsReachLoaders(c *Ctx, r *Report, rule string) {
 		}
 		ok := false
 		switch x := arg.(type) {
+		case *ast.CallExpr:
+			// hashes := make([]cid.Cid, 1); hashes[0] = hash
+			if p.Builtin(fn, x) == "make" && len(x.Args) == 2 {
+				if tv, isC := fn.Pkg.TypesInfo.Types[x.Args[1]]; isC && tv.Value != nil && tv.Value.String() == "1" {
+					if id, isID := ast.Unparen(call.Args[sp.arg]).(*ast.Ident); isID {
+						vo := p.ObjOf(fn, id)
+						nst, good := 0, true
+						walkNoLit(fn.Body, func(m ast.Node) bool {
+							as, isAs := m.(*ast.AssignStmt)
+							if !isAs || len(as.Lhs) != len(as.Rhs) {
+								return true
+							}
+							for i, l := range as.Lhs {
+								ie, isIx := ast.Unparen(l).(*ast.IndexExpr)
+								if !isIx {
+									continue
+								}
+								if bid, isB := ast.Unparen(ie.X).(*ast.Ident); isB && p.ObjOf(fn, bid) == vo {
+									nst++
+									rid, isR := ast.Unparen(as.Rhs[i]).(*ast.Ident)
+									if !isR || p.ObjOf(fn, rid) != po {
+										good = false
+									}
+								}
+							}
+							return true
+						})
+						ok = nst == 1 && good
+					}
+				}
+			}
 		case *ast.Ident:
 			ok = p.ObjOf(fn, x) == po
 		case *ast.CompositeLit:
@@ -886,4 +921,32 @@ func noCallSpecificLeftovers(c *Ctx, r *Report, rule string) {
 	}
 	r.Floor(rule, "stores into options values handed in by the caller", nst, 3)
 	r.Tables["options_handed_on_as_given"] = []string{fmt.Sprintf("%d hand-on sites, %d leftover fields", len(hands), nh)}
+}
+
+// copiedFromCallersStruct: every base is a local struct initialised by a whole-struct copy of an options value
+// the caller handed in (`o := *opts`), so each field not stored afterwards carries the caller's setting.
+func copiedFromCallersStruct(fn *ssa.Function, bases map[ssa.Value]bool, st *types.Named) bool {
+	if len(bases) == 0 {
+		return false
+	}
+	for b := range bases {
+		a, ok := b.(*ssa.Alloc)
+		if !ok {
+			return false
+		}
+		copied := false
+		allInstrs(fn, false, func(ins ssa.Instruction) {
+			s, ok := ins.(*ssa.Store)
+			if !ok || s.Addr != ssa.Value(a) {
+				return
+			}
+			if u, ok := s.Val.(*ssa.UnOp); ok && u.Op == token.MUL && paramBehind(u.X) != nil && namedOf(u.X.Type()) == st {
+				copied = true
+			}
+		})
+		if !copied {
+			return false
+		}
+	}
+	return true
 }
